@@ -82,7 +82,7 @@ def main():
                 rules = sorted(set(re.findall(r"rule (C\d+-\w+):", out)))
                 dst = os.path.join(VERIF, "seeded", name)
                 os.makedirs(dst, exist_ok=True)
-                for fn in ("patch.diff", "demo.c", "run.sh"):
+                for fn in ("patch.diff", "demo.c", "run.sh", "run_inner.sh"):
                     if os.path.exists(os.path.join(src, fn)):
                         shutil.copy(os.path.join(src, fn), os.path.join(dst, fn))
                 out_meta = {
